@@ -334,3 +334,68 @@ impl CodecLaws for Bytes {
 }
 
 //@include gen_laws_tuples.rs
+
+/// C16: a compressed frame reads back its content, consumes exactly the frame, leaves the suffix;
+/// rests on ASSUMPTION[flate2-roundtrip] only
+//@lemma C16
+pub proof fn lemma_compressed_roundtrip(d: Seq<u8>, level: int, suffix: Seq<u8>)
+    requires
+        d.len() <= u32::MAX,
+        deflate_spec(d, level).len() <= u32::MAX,
+    ensures
+        ({
+            let z = deflate_spec(d, level);
+            let frame = leb(d.len()) + leb(z.len()) + z;
+            dec_compressed(frame + suffix) == Some((d, frame.len()))
+        }),
+{
+    let z = deflate_spec(d, level);
+    let h1 = leb(d.len());
+    let h2 = leb(z.len());
+    let frame = h1 + h2 + z;
+    let all = frame + suffix;
+    axiom_flate2_roundtrip(d, level);
+    lemma_leb_roundtrip(d.len() as u32, h2 + z + suffix);
+    assert(all =~= h1 + (h2 + z + suffix));
+    let s1 = all.skip(h1.len() as int);
+    assert(s1 =~= h2 + (z + suffix));
+    lemma_leb_roundtrip(z.len() as u32, z + suffix);
+    assert(s1.subrange(h2.len() as int, (h2.len() + z.len()) as int) =~= z);
+}
+
+/// C16: every strict prefix of a frame is rejected
+//@lemma C16
+pub proof fn lemma_compressed_truncated(d: Seq<u8>, level: int, k: int)
+    requires
+        d.len() <= u32::MAX,
+        deflate_spec(d, level).len() <= u32::MAX,
+        0 <= k < (leb(d.len()) + leb(deflate_spec(d, level).len()) + deflate_spec(d, level)).len(),
+    ensures
+        dec_compressed((leb(d.len()) + leb(deflate_spec(d, level).len()) + deflate_spec(d, level)).take(k)) is None,
+{
+    let z = deflate_spec(d, level);
+    let h1 = leb(d.len());
+    let h2 = leb(z.len());
+    let frame = h1 + h2 + z;
+    let cut = frame.take(k);
+    lemma_leb_len_minimal(d.len() as u32);
+    lemma_leb_len_minimal(z.len() as u32);
+    if k < h1.len() {
+        assert(forall|i: int| 0 <= i < k ==> cut[i] == h1[i]);
+        assert(!unleb_complete(cut));
+    } else {
+        let rest = (h2 + z).take(k - h1.len());
+        assert(cut =~= h1 + rest);
+        lemma_leb_roundtrip(d.len() as u32, rest);
+        let s1 = cut.skip(h1.len() as int);
+        assert(s1 =~= rest);
+        if k - h1.len() < h2.len() {
+            assert(forall|i: int| 0 <= i < k - h1.len() ==> rest[i] == h2[i]);
+            assert(!unleb_complete(rest));
+        } else {
+            let zr = z.take(k - h1.len() - h2.len());
+            assert(rest =~= h2 + zr);
+            lemma_leb_roundtrip(z.len() as u32, zr);
+        }
+    }
+}
